@@ -385,7 +385,7 @@ def main():
         if L == 4 and intf == 3 and not ck.thorough:
             continue
         jobs.append(('job_fine', (L, intf, npol, 2, intf * 2 + (1 if intf > 1 else 0))))
-    for (L, intf) in ((1, 1), (2, 1), (1, 2), (2, 3), (4, 2), (4, 1)) + (((3, 2),) if ck.thorough else ()):
+    for (L, intf) in ((1, 1), (2, 1), (1, 2), (2, 3), (4, 2), (4, 1)) + (((2, 4), (4, 3), (1, 5)) if ck.thorough else ()):      # FFT lengths with an exact DFT (1, 2, 4); others make the queries non-linear (z3: unknown)
         for ncards, directio in ((3, None), (5, 0), (9, 1), (28, 1), (29, 1), (30, 0)):   # 28 user cards + BLOCSIZE, NBITS, DIRECTIO + END = 32 cards = 5 * 512 bytes: aligned
             if not ck.thorough and (L, intf) in ((4, 2),) and ncards not in (3, 28):
                 continue
